@@ -35,9 +35,6 @@ def run_case(case):
                         cp['oracle'] += diagram.oracle_roi(run, mi, d) if roi else diagram.oracle_full(run, mi, d)
                     except diagram.ParseError as e:
                         cp['oracle'].append(('unparseable', {'error': str(e)}, 'C16.parse'))
-                # open finding (Locked hierarchical graph machines): after a compound add_states the live markup carries
-                # stale entries the model does not mirror; correspondence is not compared there (the oracle judges)
-                cp['skip_corr'] = bool(run.phantom)
                 cp['cur'] = [diagram.name_of(p) for p in run.cur(mi)]
                 cps.append(cp)
 
@@ -62,8 +59,6 @@ def judge(case, cps, answers):
             out.append(Failure('monitor', what, case, det, signature=sig))
         if ans == 'bad-input':
             raise common.MachineryError('driver rejected a c16 request: %r' % (cp['req'][:60],))
-        if cp.get('skip_corr'):
-            continue
         if cp['roi']:
             # the root `[*] -->` marker of the ROI view is not constrained by the property
             # (Enum states: `roi_state == machine.initial` compares an Enum with a name)
@@ -256,7 +251,7 @@ class C16(runner.Check):
     theorems = ('TM.C16_states_once_nested', 'TM.C16_states_once_flat', 'TM.C16_edges_exact',
                 'TM.C16_edges_present', 'TM.C16_elements_cover', 'TM.C16_final_initial_marked',
                 'TM.C16_final_marked_flat', 'TM.C16_activity', 'TM.C16_activity_current', 'TM.C16_activity_previous', 'TM.C16_activity_attribute',
-                'TM.C16_roi', 'TM.C16_roi_defined', 'TM.C16_regenerated')
+                'TM.C16_roi', 'TM.C16_roi_defined', 'TM.C16_regenerated', 'TM.C16_no_cache')
     manifest = dict(
         level='proof', design='DESIGN.md 4/C16 + design_notes/C16.md',
         text="Mermaid backend only. Lean 4 theorems over an executable model of _get_elements / _transition_label / "
@@ -285,7 +280,8 @@ class C16(runner.Check):
             'model_attribute (models with and without an unrelated own `state` attribute), 1-2 external model objects plus '
             'models registered later with add_model, on_enter / transition-after '
             'callbacks that fire further events on the same model (nested events), histories of 2-9 operations (trigger '
-            'incl. auto triggers, add_states with lists mixing compound definitions, joined parent_child names and plain '
+            'incl. auto triggers, display options set later on the machine (auto_transitions_markup, show_conditions, '
+            'show_state_attributes, title), on_enter_/on_exit_<state> callbacks registered later, add_states with lists mixing compound definitions, joined parent_child names and plain '
             'states, add_transition, remove_transition); after construction and after every operation the full and '
             'the region-of-interest diagram of every model are parsed, compared with the Lean model and judged by the '
             'oracle; the regression cases of corpus/C16/ run first. Non-trivial: the model state shown changes during the history (and a compound state exists for '
@@ -385,9 +381,6 @@ class C16(runner.Check):
             'machine is C13/C14 business); automatic = trigger name starts with "to_", which generated names never do',
             'state tags / timeouts (feature mixins) in show_state_attributes are not generated; histories stop at an '
             'operation on which the engine itself raises (other properties)',
-            'one open finding (Locked hierarchical graph machines keep the stale-markup defect of former finding 4): '
-            'classified by class + earlier compound/joined add_states + only phantom names in excess; correspondence is '
-            'skipped on those checkpoints',
             'the model follows the repaired tree only; corpus/C16/*.json (witnesses of the four former findings) run '
             'first on every run and must pass',
         ]
